@@ -157,6 +157,7 @@ pub fn gen_backend(seed: u64, id: usize, kind: &str, faults: bool, big: bool) ->
     let mut next_payload = 1usize;
     let mut feats: HashMap<String, u64> = HashMap::new();
     let mut feat = |k: &str, feats: &mut HashMap<String, u64>| *feats.entry(k.to_string()).or_insert(0) += 1;
+    let mut last_added: Vec<Option<usize>> = vec![None; nh];
     let ncalls = rng.range(3, 12);
     let fault_call = if faults { Some(rng.below(ncalls)) } else { None };
     let n_ = |x: usize| n(x as u64);
@@ -224,6 +225,7 @@ pub fn gen_backend(seed: u64, id: usize, kind: &str, faults: bool, big: bool) ->
                     ids.push(v);
                     canon.insert(v, cid);
                     chain.push(cid);
+                    last_added[h] = Some(cid);
                     feat("accepted", &mut feats);
                     items.push(pair(ctor("BAddVersion", vec![n_(pcanon), n_(cid), n_(pl)]), ctor("BOk", vec![n_(cid)])));
                     script.push(json!(format!("handle {h}: add_version(parent {pcanon}, payload {pl}) -> Ok({cid})")));
@@ -271,7 +273,11 @@ pub fn gen_backend(seed: u64, id: usize, kind: &str, faults: bool, big: bool) ->
                 }
             }
         } else if c < 80 {
-            let parent = if rng.chance(85) { pick_known(&mut rng, &chain) } else { usize::MAX };
+            // often: the child of what this very handle added last (what a sync asks next)
+            let parent = match last_added[h] {
+                Some(v) if rng.chance(45) => v,
+                _ => if rng.chance(85) { pick_known(&mut rng, &chain) } else { usize::MAX },
+            };
             let puuid = if parent == usize::MAX { unknown } else { ids[parent] };
             let pcanon = if parent == usize::MAX { 9998 } else { parent };
             match std::panic::catch_unwind(std::panic::AssertUnwindSafe(|| block_on(be.handles[h].get_child_version(puuid)))) {
